@@ -474,3 +474,15 @@ impl<'dbg> FatDieRef<'dbg, Function> {
         })
     }
 }
+
+#[cfg(feature = "verif")]
+impl<'dbg, H: Hint> FatDieRef<'dbg, H> {
+    /// verification hook: (unit index, die offset in unit) of this reference
+    pub fn verif_unit_and_offset(&self) -> (usize, Option<usize>) {
+        let off = match self.reference {
+            DieReference::Offset(o) => Some(o.0),
+            DieReference::Virtual(_) => None,
+        };
+        (self.unit_idx, off)
+    }
+}
